@@ -98,14 +98,9 @@ var coerceTargets = []string{"t", "list", "vector", "string", "character", "symb
 // coerceKnown names the known finding (known_findings/C16.json) that covers a coerce result which is not of
 // the requested type; "" if none does.
 func coerceKnown(src *node, target string, res slip.Object) string {
-	h := hierarchyOf(res)
 	switch {
-	case res == nil && (target == "list" || target == "vector" || target == "octets" || target == "string" || target == "bit-vector"):
-		return "C16-nil-is-only-null"
-	case target == "short-float" && len(h) > 0 && h[0] == "single-float":
-		return "C16-short-float-is-single-float"
-	case target == "byte" && len(h) > 0 && h[0] == "octet":
-		return "C16-byte-is-octet"
+	case res == nil && (target == "vector" || target == "octets"):
+		return "C16-coerce-nil-to-vector-is-nil"
 	}
 	return ""
 }
@@ -161,7 +156,8 @@ func runTypes(ctx *common.Ctx, g *gen) {
 			tset[x] = true
 		}
 	}
-	for _, x := range []string{"null", "atom", "no-such-type", "FIXNUM", "Integer", "LIST", "T", "keyword", "boolean", "cons", "list", "NULL", "Symbol"} {
+	for _, x := range []string{"null", "atom", "no-such-type", "FIXNUM", "Integer", "LIST", "T", "keyword", "boolean", "cons", "list", "NULL", "Symbol",
+		"SHORT-FLOAT", "Short-Float", "BYTE", "Cons", "Sequence"} {
 		tset[x] = true
 	}
 	tsyms := common.SortedKeys(tset)
@@ -237,7 +233,7 @@ func runTypes(ctx *common.Ctx, g *gen) {
 	}
 	// subtypep on pairs of names
 	pairs := [][2]string{}
-	subNames := append(append([]string{}, names...), "no-such-type", "list", "cons", "null", "FIXNUM", "Integer")
+	subNames := append(append([]string{}, names...), "no-such-type", "list", "cons", "null", "FIXNUM", "Integer", "SHORT-FLOAT", "Byte", "NULL", "t")
 	if len(subNames)*len(subNames) <= 4000 || ctx.Thorough() {
 		for _, a := range subNames {
 			for _, b := range subNames {
@@ -298,7 +294,8 @@ func subCode(o common.Outcome) int {
 }
 
 // typeAgreeKnown: disagreements of typep and subtypep covered by known findings: the object's type-of does
-// not name a registered class (list, cons, null), or the type asked about is t, which is not a class either.
+// not name a registered class (t; list, cons and null before repair C16-7), or the type asked about is t, which is
+// not a class either.
 func typeAgreeKnown(kind, tof, ty string) bool {
 	switch tof {
 	case "list", "cons", "null", "t":
